@@ -751,7 +751,10 @@ func main() {
 	for k, v := range s.perFam {
 		pf[k] = map[string]int{"evaluated": v.Evals, "skipped_identical_to_base": v.Skipped}
 	}
+	// concurrent part: BuildTxListExt's hashing goroutines under the controlled scheduler
+	concurrent := r.RunSub("c09s", "concurrent")
 	r.Finish(map[string]interface{}{
+		"concurrent_part": concurrent,
 		"evaluations":                            s.evals,
 		"distinct_nontrivial":                    len(s.shapes),
 		"rule":                                   "a case is non-trivial when at least one of reference / gocoin decoded a complete object from it; distinct = number of distinct (family, reference outcome, gocoin outcome, decoded shape = inputs/outputs/witness or txs/witness/hash-mode) tuples observed; worker deaths count as their own outcome",
